@@ -105,7 +105,10 @@ func withTTY(f func()) bool {
 	return true
 }
 
-func c19GenCount(r interface{ IntN(int) int; Uint64() uint64 }) uint64 {
+func c19GenCount(r interface {
+	IntN(int) int
+	Uint64() uint64
+}) uint64 {
 	switch r.IntN(8) {
 	case 0:
 		return 0
@@ -125,7 +128,10 @@ func c19GenCount(r interface{ IntN(int) int; Uint64() uint64 }) uint64 {
 	return uint64(r.IntN(1000))
 }
 
-func c19GenDur(r interface{ IntN(int) int; Int64N(int64) int64 }) time.Duration {
+func c19GenDur(r interface {
+	IntN(int) int
+	Int64N(int64) int64
+}) time.Duration {
 	switch r.IntN(9) {
 	case 0:
 		return 0
@@ -149,7 +155,10 @@ func c19GenDur(r interface{ IntN(int) int; Int64N(int64) int64 }) time.Duration 
 
 var c19Errs = []string{"", "", "", "boom", "setup failed", "Error 0: setup failed; Error 1: teardown failed", "with {braces} and {{template}} {{.Failed}}", "100% wrong %d %s", "multi\n  line\n\terror", "{red}colour{-} tokens", "ünïcödé ✘ ✔", "x"}
 
-func c19Snap(r interface{ IntN(int) int; Int64N(int64) int64 }, count uint64) progress.IterationDurationsSnapshot {
+func c19Snap(r interface {
+	IntN(int) int
+	Int64N(int64) int64
+}, count uint64) progress.IterationDurationsSnapshot {
 	return progress.IterationDurationsSnapshot{Average: c19GenDur(r), Min: c19GenDur(r), Max: c19GenDur(r), Count: count}
 }
 
